@@ -30,7 +30,7 @@ DeepKey(ty, pattern) == ty \o "/" \o pattern
 DeepTrack(ty, pattern) ==
   IF DeepKey(ty, pattern) \in DOMAIN deep THEN deep[DeepKey(ty, pattern)] ELSE [maxok |-> 0, minrej |-> -1]
 
-CallEvents == {"Size", "Encode", "Decode", "Deep", "Reject", "Legacy", "Allocs", "Par", "Walk", "Recheck", "Hooks", "Reg", "Gated", "Scale", "Repeat"}
+CallEvents == {"Size", "Encode", "Decode", "Deep", "Reject", "Legacy", "Allocs", "Par", "Walk", "Recheck", "Hooks", "Reg", "Gated", "Scale", "Repeat", "EnvCmp", "CmpOut"}
 
 \* rejected calls seen so far in the whole trace: (type, entry, argument kind) -> outcome
 RejKey == Line.ty \o "/" \o Line.entry \o "/" \o Line.arg
@@ -65,6 +65,8 @@ Judge ==
     [] Line.ev = "Hooks" -> JHooks(Line, spans)
     [] Line.ev = "Reg" -> JReg(Line, regst)
     [] Line.ev = "Gated" -> JGated(Line, regst)
+    [] Line.ev = "EnvCmp" -> JEnvCmp(Line)
+    [] Line.ev = "CmpOut" -> JCmpOut(Line)
     [] Line.ev = "Scale" -> JScale(Line)
     [] Line.ev = "Repeat" -> JRepeat(Line)
     [] Line.ev = "Walk" -> JWalk(Line, objin)
@@ -142,7 +144,7 @@ TraceCall ==
      /\ IF v = {} THEN ndev' = ndev ELSE Report(v) /\ ndev' = ndev + 1
      /\ Count(j.cls)
      /\ IF Line.ev = "Legacy" THEN LegacyCall(Line.call)
-        ELSE IF Line.ev \in {"Par", "Walk", "Recheck", "Hooks", "Reg", "Gated"} THEN UNCHANGED apiVars
+        ELSE IF Line.ev \in {"Par", "Walk", "Recheck", "Hooks", "Reg", "Gated", "EnvCmp", "CmpOut", "Scale", "Repeat"} THEN UNCHANGED apiVars
         ELSE Call(Line.ty)
   /\ l' = l + 1
   /\ UNCHANGED cur
